@@ -134,4 +134,7 @@ def subs(tier):
             doc='compress -> re-chunk (as emitted / generated cuts / byte by byte + trailing empty chunk) -> decompress; reference decoders'),
         Sub('truncate', check_truncate, gen=trunc_case, examples={'quick': 150, 'thorough': 4000},
             doc='every proper prefix of the compressed stream makes decompress fail without completing'),
-    ]
+    ] + ([] if tier != 'thorough' else [
+        Sub('fuzz', check_roundtrip, fuzz='c16', fuzz_runs={'thorough': 480000},
+            doc='atheris/libFuzzer campaign: codec, chunk specs and re-chunking decoded from the fuzzer bytes, same round-trip oracle'),
+    ])
